@@ -6,6 +6,7 @@ import z3
 from symx.api import Harness, Raised, register
 
 from .c12 import full, same_snapshot
+from .common import zsum
 from .common import declare_edges
 
 
@@ -176,6 +177,9 @@ class C17GenericND(Harness):
         for form in FORMS_ND:
             for wk in ("none", "list"):
                 yield f"cnd-{form}-w{wk}", dict(form=form, weights=wk, bad=None)
+        # a row of infinities of both signs is not a NaN row: it is kept (in no cell, so its weight is missed)
+        for form in ("list_of_rows", "tuple_of_rows", "h2_lists"):
+            yield f"cnd-{form}-wlist-infmix", dict(form=form, weights="list", bad=None, infmix=True)
         for bad in ("one_dim", "unequal_columns", "weights_len", "ragged_rows", "axis_names_len", "h3_four_columns", "h3_two_columns_int_bins", "h3_four_columns_int_bins", "h2_dim_three_columns", "h_dim_too_small", "h2_second_none", "h2_first_none", "h2_scalars"):
             yield f"cnd-bad-{bad}", dict(form="list_of_rows", weights="none", bad=bad)
         yield "cnd-named-columns", dict(form="h2_named", weights="none", bad=None)
@@ -191,6 +195,8 @@ class C17GenericND(Harness):
         np = E.np
         fac = E.mod("physt._facade")
         rows = x["x"]
+        if p.get("infmix"):
+            rows = [rows[0], [float("inf"), float("-inf")] + list(rows[1][2:])]
         d = len(rows[0])
         bins = [np.asarray(e) for e in x["e"]]
         arr = np.asarray(rows, dtype=float).reshape((2, d))
@@ -298,6 +304,12 @@ class C17GenericND(Harness):
             # unnamed columns give axis names (None, None); the array gives the defaults - names are checked separately
             g["axis_names"] = r["axis_names"]
         yield "same_as_array", same_snapshot(cx, g, r)
+        if p.get("infmix"):
+            # absolute accounting (the array reference goes through the same extraction): cells + missed = weight of the rows without NaN
+            w = [cx.t(i) for i in x["w"]]
+            keep0 = z3.Not(z3.Or([cx.isnan(c) for c in x["x"][0]]))
+            cells = [c for row in g["freq"] for c in (row if isinstance(row, list) else [row])]
+            yield "infinite_row_is_missed_not_dropped", zsum([cx.t(c) for c in cells] + [cx.t(g["missed"][0])]) == z3.If(keep0, w[0], 0) + w[1]
 
 
 @register
